@@ -56,11 +56,13 @@ def gen_world(rnd, rows=None, cols=None, bands=None, masks=None, disp=None, righ
         w["disp"] = {"kind": "scalar", "min": lo, "max": hi}
     else:
         lo = rnd.randint(-4, 1)
-        w["disp"] = {"kind": "grid", "lo": lo, "hi": lo + rnd.randint(1, 5), "seed": rnd.getrandbits(32)}
+        w["disp"] = {"kind": "grid", "lo": lo, "hi": lo + rnd.randint(1, 5), "seed": rnd.getrandbits(32),
+                     "mode": rnd.choice(["both", "both", "min_uniform", "max_uniform"])}
     if right_disp is None:
         right_disp = disp == "grid" and rnd.random() < 0.6
     if right_disp and w["disp"]["kind"] == "grid":
-        w["disp_right"] = {"kind": "grid", "lo": -w["disp"]["hi"], "hi": -w["disp"]["lo"], "seed": rnd.getrandbits(32)}
+        w["disp_right"] = {"kind": "grid", "lo": -w["disp"]["hi"], "hi": -w["disp"]["lo"], "seed": rnd.getrandbits(32),
+                           "mode": rnd.choice(["both", "both", "min_uniform", "max_uniform"])}
     else:
         w["disp_right"] = None
     if georef is None:
@@ -135,6 +137,11 @@ def _grid(spec, rows, cols):
     dmin = g.integers(lo, hi + 1, size=(rows, cols))
     width = g.integers(0, hi - lo + 1, size=(rows, cols))
     dmax = np.minimum(dmin + width, hi)
+    mode = spec.get("mode", "both")
+    if mode == "min_uniform":  # only the upper bound varies from pixel to pixel
+        dmin = np.full((rows, cols), lo)
+    elif mode == "max_uniform":  # only the lower bound varies
+        dmax = np.full((rows, cols), hi)
     return np.stack([dmin, dmax]).astype(np.float32)
 
 
